@@ -925,6 +925,21 @@ def rule_status_protocol(ck, solvers, cv):
             # --- norms handed to _update_defect / is_converged / is_diverged are norms of the defect vector
             for un, ufn, usf in units:
                 for c in ufn.calls():
+                    if cname(c) in ("is_converged", "is_diverged") and not c.get("a") and c.get("k") == "MCall" and (c.get("obj") is None or c["obj"].get("k") == "This"):
+                        # the argument-less overloads test the cached _def_cur: judge the value last stored into it (by this function, else by the defect protocol)
+                        asg = [a for a in ufn.nodes() if a.get("k") == "Assign" and a.get("op") == "=" and strip(a["lhs"]).get("k") == "Member" and strip(a["lhs"]).get("n") == "_def_cur"
+                               and ufn.cfg.block_of(a["i"]) is not None and ufn.cfg.stmt_dominates(a["i"], c["i"])]
+                        key = "%s::%s/%s#%d" % (sc, un, cname(c), ordinal(ufn, c))
+                        if asg:
+                            ok, why = norm_of_defect(ufn, usf.lo, asg[-1]["rhs"], defect_obj if un == "_apply_intern" or not (defect_obj or "").startswith("$") else None)
+                            why = "_def_cur = %s (line %s): %s" % (render(asg[-1]["rhs"])[:30], asg[-1].get("l"), why)
+                        else:
+                            ok, why = True, "tests the cached _def_cur as the defect protocol left it (norm of the vector given to the last defect update; its currency is E7.tested-defect-current)"
+                        if ok is None:
+                            ck.incomplete("E7.defect-norm-object", "%s [%s] line %s: %s" % (key, tag, c.get("l"), why))
+                            ok = True
+                        perkey.setdefault(("E7.defect-norm-object", key), []).append((ok, "[%s] line %s: %s" % (tag, c.get("l"), why), c.get("l")))
+                        continue
                     if cname(c) in ("_update_defect", "is_converged", "is_diverged") and len(c.get("a", [])) == 1:
                         ok, why = norm_of_defect(ufn, usf.lo, c["a"][0], defect_obj if un == "_apply_intern" or not (defect_obj or "").startswith("$") else None)
                         ra = usf.lo.resolve(c["a"][0])
@@ -5056,7 +5071,10 @@ class FilterFlow:
             # known filtered on one side only: fall back to the default
         return res
 
-    PFX = re.compile(r"^(m|p|pw|nf|ns):")       # marks: measured / norm pending / pending but written since / state when norm <id> was taken
+    # marks: m:<vec> measured and unmodified since / p:<id>:<vec> norm call <id> taken and its vector unmodified since / pw:<id>:<vec> the vector
+    # was written after norm <id> was taken / nf:,ns:<id> filter state, staleness when norm <id> was taken / dc:<vec> _def_cur is the current norm
+    # of <vec> / dcs the vector was modified (or _def_cur overwritten with something else) since _def_cur was last set from its norm
+    PFX = re.compile(r"^(m|p|pw|nf|ns|dc):|^dcs$")
 
     def read(self, st, k):
         if k in st:
@@ -5071,8 +5089,11 @@ class FilterFlow:
         """vector k is written: it is no longer 'unmodified since measured'; a norm taken before is now older than the vector"""
         for mk in [x for x in st if x.startswith("m:") and may_alias(x[2:], k)]:
             del st[mk]
-        for pk in [x for x in st if x.startswith("p:") and may_alias(x[2:], k)]:
-            st["pw:" + pk[2:]] = st.pop(pk)
+        for pk in [x for x in st if x.startswith("p:") and may_alias(x.split(":", 2)[2], k)]:
+            st["pw:" + pk[2:]] = "%s (after %s)" % (getattr(self, "cur_here", "?"), st.pop(pk))
+        for dk in [x for x in st if x.startswith("dc:") and may_alias(x[3:], k)]:
+            del st[dk]
+            st.setdefault("dcs", "%s modifies %s after _def_cur was set to its norm" % (getattr(self, "cur_here", "?"), k))
 
     def measure(self, st, kd, here, record, nm):
         """the defect update `nm` measures vector kd here: it must have been modified since the previous measurement"""
@@ -5118,6 +5139,7 @@ class FilterFlow:
             if n is None:
                 continue
             k = n.get("k")
+            self.cur_here = "line %s `%s`" % (n.get("l"), render(n)[:60])
             # an index variable changes: element keys spelled with it denote other elements from now on
             tgt = None
             if k == "Un" and n.get("op") in ("++", "--"):
@@ -5130,6 +5152,16 @@ class FilterFlow:
                     if st[key] is not None and not self.PFX.match(key):
                         st.setdefault(base_key(key) + "[?]", st[key])
                     del st[key]
+                continue
+            if k == "Assign" and strip(n["lhs"]).get("k") == "Member" and strip(n["lhs"]).get("n") == "_def_cur" and (strip(n["lhs"]).get("b") is None or strip(n["lhs"])["b"].get("k") == "This"):
+                e = norm_call_of(lo, n["rhs"]) if n.get("op") == "=" else None
+                kd = self.vec_key(e["obj"]) if e is not None and e.get("obj") is not None else None
+                for x in [y for y in st if y.startswith("dc:") or y == "dcs"]:
+                    del st[x]
+                if kd is not None and ("p:%s:%s" % (e["i"], kd)) in st:
+                    st["dc:" + kd] = self.cur_here
+                else:
+                    st["dcs"] = "%s stores a value that is not the current norm of the defect vector" % self.cur_here
                 continue
             if k in ("Assign", "OpCall") and as_assign(n) is not None:
                 l, r = as_assign(n)
@@ -5182,6 +5214,9 @@ class FilterFlow:
                         self.shared["bad"].append((n.get("l"), fn.name, nm, kd, self.read(st, kd)))
                 if kd is not None:
                     self.measure(st, kd, here, record, nm)
+                    for x in [y for y in st if y.startswith("dc:") or y == "dcs"]:
+                        del st[x]
+                    st["dc:" + kd] = here
                 continue
             if own and nm in ("_update_defect", "is_converged", "is_diverged") and len(n.get("a", [])) == 1:
                 e = norm_call_of(lo, n["a"][0]) or {}
@@ -5195,11 +5230,24 @@ class FilterFlow:
                         # the measurement counts here, where the norm flows into the defect protocol; its object is the vector as it was when the norm was taken
                         if record and isinstance(st.get("ns:%s" % e["i"]), str):
                             self.shared.setdefault("stale", []).append(("line %s `%s`" % (e.get("l"), render(e)[:40]), fn.name, nm, kd, st["ns:%s" % e["i"]]))
-                        unmodified = [x for x in st if x.startswith("p:") and may_alias(x[2:], kd)]
-                        for x in [y for y in st if (y.startswith("p:") or y.startswith("pw:")) and may_alias(y.split(":", 1)[1], kd)]:
+                        unmodified = ("p:%s:%s" % (e["i"], kd)) in st
+                        for x in [y for y in st if y.startswith("dc:") or y == "dcs"]:
                             del st[x]
                         if unmodified:
                             st["m:" + kd] = "line %s `%s`" % (e.get("l"), render(e)[:40])
+                            st["dc:" + kd] = here
+                        else:
+                            st["dcs"] = "%s stores a norm of %s taken before the vector was modified" % (here, kd)
+                    elif record and isinstance(st.get("pw:%s:%s" % (e["i"], kd)), str):
+                        # a stopping test on a norm that no longer belongs to the vector
+                        self.shared.setdefault("stale_test", []).append((here, fn.name, nm, "the norm of %s taken at line %s; the vector has been modified since: %s" % (kd, e.get("l"), st["pw:%s:%s" % (e["i"], kd)])))
+                continue
+            if own and nm in ("is_converged", "is_diverged") and not n.get("a"):
+                # the argument-less overloads test the cached _def_cur
+                if record:
+                    self.shared["nsites"] += 1
+                    if isinstance(st.get("dcs"), str):
+                        self.shared.setdefault("stale_test", []).append((here, fn.name, nm + "()", "the cached _def_cur, which is not the norm of the current defect vector: " + st["dcs"]))
                 continue
             if obj is not None and not own and (nm in NORM_CALLS or (nm in ("dot", "dot_async") and norm_call_of(lo, n) is not None)):
                 kv = self.vec_key(obj)
@@ -5213,9 +5261,9 @@ class FilterFlow:
                         stale = [v for x, v in st.items() if x.startswith("m:") and may_alias(x[2:], kv)]
                         if stale:
                             st["ns:%s" % n["i"]] = stale[0]
-                        for x in [y for y in st if (y.startswith("p:") or y.startswith("pw:")) and may_alias(y.split(":", 1)[1], kv)]:
-                            del st[x]
-                        st["p:" + kv] = here
+                    for x in [y for y in st if y.startswith("p:%s:" % n["i"]) or y.startswith("pw:%s:" % n["i"])]:
+                        del st[x]
+                    st["p:%s:%s" % (n["i"], kv)] = here
                 continue
             # --- the iteration entered from apply()/correct()
             if own and nm == "_apply_intern":
@@ -5243,7 +5291,10 @@ class FilterFlow:
                 for key, org in st.items():
                     if org is None:
                         continue
-                    mt = re.match(r"^(m|p|pw):", key)
+                    if key == "dcs":
+                        ent[key] = org
+                        continue
+                    mt = re.match(r"^(m:|dc:|p:\d+:|pw:\d+:)", key)
                     if self.PFX.match(key) and not mt:
                         continue
                     pre, bare = (mt.group(0), key[len(mt.group(0)):]) if mt else ("", key)
@@ -5253,12 +5304,15 @@ class FilterFlow:
                         ent[key] = org
                 sub = FilterFlow(callee, ent, self.methods, self.pruner_for, self.depth + 1, self.shared if record else {"entries": [], "bad": [], "nsites": 0, "unknown": []})
                 back = {v: k2 for k2, v in trans.items()}
-                for key in [x for x in st if not re.match(r"^(nf|ns):", x) and (re.sub(r"^(m|p|pw):", "", x).startswith("this.") or re.sub(r"^(m|p|pw):", "", x) in trans)]:
+                for key in [x for x in st if x == "dcs" or (not re.match(r"^(nf|ns):", x) and (re.sub(r"^(m:|dc:|p:\d+:|pw:\d+:)", "", x).startswith("this.") or re.sub(r"^(m:|dc:|p:\d+:|pw:\d+:)", "", x) in trans))]:
                     del st[key]
                 for key, org in sub.exit_state.items():
                     if org is None:
                         continue
-                    mt = re.match(r"^(m|p|pw):", key)
+                    if key == "dcs":
+                        st[key] = org
+                        continue
+                    mt = re.match(r"^(m:|dc:|p:\d+:|pw:\d+:)", key)
                     if self.PFX.match(key) and not mt:
                         continue
                     pre, bare = (mt.group(0), key[len(mt.group(0)):]) if mt else ("", key)
@@ -5345,7 +5399,7 @@ def rule_defect_filtered(ck, solvers, facts=None):
         if not fns:
             ck.incomplete("E7.defect-filtered", "anchor %s::_apply_intern not instantiated" % sc)
             continue
-        bad, notes, nsites, stale_bad = [], [], 0, []
+        bad, notes, nsites, stale_bad, test_bad = [], [], 0, [], []
         for fn in fns[:2]:
             tag = short_inst(fn)
             methods = {}
@@ -5406,6 +5460,9 @@ def rule_defect_filtered(ck, solvers, facts=None):
                         for here, fname, nm, kd, prev in inner.shared.get("stale", []):
                             stale_bad.append("[%s]%s %s: %s measures %s again although no statement has modified that vector since %s: the same defect is reported for two iterations "
                                              "(one more iteration than progress; with min_stag_iter = 1 the run ends 'stagnated' although it does not stagnate)" % (tag, cfgtxt, fname, here, kd, prev))
+                        for here, fname, nm, what in inner.shared.get("stale_test", []):
+                            test_bad.append("[%s]%s %s: %s %s decides on %s. A stopping test must decide on the norm of the residual as it is at that point "
+                                            "(e.g. success is returned for an iterate whose defect was never compared with the tolerance)" % (tag, cfgtxt, fname, here, nm, what))
                         for line, fname, nm, kd, org in inner.shared["bad"]:
                             bad.append("[%s] entered through %s()%s: %s line %s hands %s to %s, but that vector may lie outside the range of the system filter: its last unfiltered contribution is %s; no _system_filter.filter_def(%s) follows. "
                                        "The reported defect then contains the constrained components (it never falls below their norm: max_iter / breakdown instead of success)" % (
@@ -5415,6 +5472,9 @@ def rule_defect_filtered(ck, solvers, facts=None):
         if not bad and nsites == 0:
             ck.incomplete("E7.defect-filtered", "%s::_apply_intern: no measurement of a defect vector (_set_initial_defect/_set_new_defect/_update_defect of a vector norm) was reached" % sc)
             continue
+        test_bad = sorted(set(test_bad))
+        ck.ob("E7.tested-defect-current", "%s::_apply_intern" % sc, not test_bad, "; ".join(test_bad[:2]) if test_bad else
+              "every norm handed to _update_defect / is_converged / is_diverged - and the cached _def_cur where the argument-less overloads are used - is that of the defect vector as it is at the test", fns[0].file, fns[0].line)
         stale_bad = sorted(set(stale_bad))
         ck.ob("E7.defect-fresh", "%s::_apply_intern" % sc, not stale_bad, "; ".join(stale_bad[:2]) if stale_bad else
               "every defect update measures a vector that was modified since the previous measurement (%d sites)" % nsites, fns[0].file, fns[0].line)
@@ -5695,6 +5755,12 @@ RULES = [
      "argument of apply() is filtered, the right-hand side of correct() is not. Obligation: the vector handed to _set_initial_defect/_set_new_defect and the vector "
      "whose norm is handed to _update_defect/is_converged/is_diverged is filtered at that point. Broken => input class: correct() (or solve()) with a UnitFilter "
      "carrying non-zero Dirichlet values / any filter that changes the right-hand side: the reported defect keeps the constrained components and never meets the tolerance."),
+    ("E7.tested-defect-current", 16,
+     "on the dataflow of E7.defect-filtered: a norm handed to is_converged / is_diverged (or _update_defect only through the explicit test overloads) must still be the norm of "
+     "its vector - no statement modifies the vector between the point where the norm is taken and the test; the argument-less overloads is_converged() / is_diverged() "
+     "test the cached _def_cur, which must then be the current norm of the defect vector: set by _set_initial_defect / _set_new_defect / _update_defect / `_def_cur = <norm>` "
+     "and not followed by a modification of that vector. Broken => e.g. the half-step exit of (R)BiCGStab with min_iter > 0: success decided on the previous full step's "
+     "defect while the half-step residual is above the tolerance."),
     ("E7.defect-fresh", 16,
      "between two consecutive defect measurements that count an iteration (_set_initial_defect / _set_new_defect of a vector; the point where the norm handed to "
      "_update_defect is taken) the measured vector is modified on every path (may-analysis on the same dataflow as E7.defect-filtered). Broken => the defect of one "
